@@ -640,6 +640,9 @@ func (c *client) loopWrite() {
 
 		select {
 		case <-c.quit:
+			// the request is already taken out of the pending queue and not
+			// yet in the processing queue, nobody else could answer it.
+			req.SetResponse(newError(backendExited))
 			return
 		case c.processingReqs <- req:
 		}
@@ -661,7 +664,14 @@ func (c *client) loopRead() {
 			return
 		}
 
-		req := <-c.processingReqs
+		// The response could arrive before the writer puts the request into
+		// the processing queue, don't wait for it forever if the client quits.
+		var req *simpleRequest
+		select {
+		case req = <-c.processingReqs:
+		case <-c.quit:
+			return
+		}
 		c.handleResp(req, resp)
 	}
 }
